@@ -20,6 +20,7 @@ func main() {
 	n := fs.Int("n", 100, "number of cases")
 	profile := fs.String("profile", "default", "generator profile")
 	start := fs.Int("start", 0, "first case to run (earlier ones are generated but skipped)")
+	flows := fs.String("flows", "", "condense: the model's flows for each case (second pass)")
 	_ = fs.Parse(os.Args[2:])
 	w := bufio.NewWriterSize(os.Stdout, 1<<20)
 	defer w.Flush()
@@ -38,6 +39,28 @@ func main() {
 			}
 			c := genCase(rand.New(rand.NewSource(cs)), i, cs, pf)
 			emit(w, runCase(c))
+		}
+	case "condense":
+		var spec map[int]specFlows
+		if *flows != "" {
+			var err error
+			if spec, err = readSpecFlows(*flows); err != nil {
+				fmt.Fprintln(os.Stderr, err)
+				os.Exit(2)
+			}
+		}
+		rng := rand.New(rand.NewSource(*seed))
+		for i := 0; i < *n; i++ {
+			cs := rng.Int63()
+			if i < *start {
+				continue
+			}
+			sub := rand.New(rand.NewSource(cs))
+			c := genCondenseCase(sub, i, cs)
+			sf, have := spec[i]
+			for _, l := range runCondenseCase(c, sub, sf, have && *flows != "") {
+				fmt.Fprintln(w, l)
+			}
 		}
 	case "curry", "saveto", "filler":
 		rng := rand.New(rand.NewSource(*seed))
